@@ -68,6 +68,7 @@ type world struct {
 
 func (x *world) run(name string, s step) {
 	w := x.w
+	w.Touch()
 	x.active++
 	multi := len(s.keys) > 1
 	switch {
@@ -80,6 +81,7 @@ func (x *world) run(name string, s step) {
 	default:
 		x.l.rlock(s.keys[0])
 	}
+	w.Touch()
 	for _, k := range s.keys {
 		if s.write {
 			x.writers[k]++
@@ -99,6 +101,7 @@ func (x *world) run(name string, s step) {
 	} else {
 		vsync.Yield()
 	}
+	w.Touch()
 	for _, k := range s.keys {
 		if s.write {
 			x.writers[k]--
@@ -116,6 +119,7 @@ func (x *world) run(name string, s step) {
 	default:
 		x.l.runlock(s.keys[0])
 	}
+	w.Touch()
 	x.active--
 }
 
@@ -142,6 +146,7 @@ func scenario(m mkLocker, p prog) *mc.Scenario {
 				})
 			}
 			w.Join()
+			w.Touch()
 			if n := x.l.entries(); n != 0 {
 				w.Failf("every lock was released but the locker retains %d per-key entr(ies)", n)
 			}
